@@ -5,8 +5,8 @@ from .. import env, coq, runner, gates, tables
 
 LEVEL = 'proof'
 META = dict(
-    text='Coq theorems over a generic commutative ring with unit parameters (hence for every exponent at once): for each dispatch branch of the IonQ serializer the vendor meaning of the emitted gate equals the Cirq gate matrix (regenerated eigen tables) up to an explicit unit factor; the regenerated dispatch table equals the model decision function; the measurement-metadata codec round-trips for every key/target list and chunk size; bit reversal is an involution and result bits land on the right qubits. On every run the REAL payloads of cirq_ionq.Serializer and AQTSampler for generated circuits are interpreted by the vendor semantics inside Coq and compared up to global phase with the reference unitary; metadata, result conversion and rejection of unsupported content are compared exactly.',
-    note='Trusted: Coq kernel; the transcription of the IonQ / AQT gate definitions (coq/Vendor/IonQ.v, AQT.v headers); the Python adapters that read JSON fields and turn angles into unit complex numbers; the float instance (PrimFloat, tolerance 1e-9, 5e-7 when an exponent lies inside the 1e-8 window). Vendor services are not contacted; result conversion is exercised on synthetic histograms.',
+    text='Coq theorems over a generic commutative ring with unit parameters, hence for every exponent at once: for each of the 18 dispatch branches of the IonQ serializer (x v vi rx y ry z s si t ti rz xx yy zz cnot swap h) the vendor meaning of the emitted gate equals the Cirq gate matrix (regenerated eigen tables) up to an explicit unit factor, for every exponent of the branch class and for all exponents in the rotation branches; the dispatch table regenerated from the working tree (945 rows: special exponents, just inside/outside the 1e-8 window, generic) equals the model decision function; native gpi/gpi2/ms/zz pass their parameters through; pauliexp term strings are little-endian for strings of any length; the measurement-metadata codec round-trips for every key/target list without separators and every chunk size; bit reversal is an involution and both result paths give qubit targets[i] bit targets[i] of the little-endian outcome; the AQT operation list is translated operation by operation into the v1 payload with matrices equal to the Cirq gates up to phase. On every run the REAL payloads of cirq_ionq.Serializer (single, batch, QIS, native) and AQTSampler (_generate_json, v1) for generated circuits are interpreted by the vendor semantics inside Coq and compared up to global phase with the reference unitary; metadata and result conversion are compared exactly with the codec model; unsupported content must raise; Service / Sampler / AQT samplers are run end to end against a stand-in vendor; the Pasqal request body must read back as the resolved circuit.',
+    note='Trusted: Coq kernel; the transcription of the IonQ / AQT gate definitions and of the little-endian conventions (headers of coq/Vendor/IonQ.v, AQT.v); the Python adapters that copy JSON fields and turn angles into unit complex numbers; the float instance (PrimFloat, tolerance 1e-9, 5e-7 when an exponent lies inside the serializer window); the stand-in vendors used for the end-to-end streams follow the same trusted text. Vendor services are not contacted. Field NAMES of the vendor JSON (e.g. `phase` vs `angle` for native zz) are taken as the serializer writes them; only their meaning is checked. Known findings: invert_mask / confusion_map / repeated measurement keys are accepted and altered by the IonQ serializer; AQTSampler does not validate qubit type / index.',
     technique='Rocq/Coq proof over generic-ring gate semantics and list codecs + vm_compute interpretation of real vendor payloads against the reference unitary',
 )
 
@@ -18,6 +18,12 @@ PRE_D = ('From Coq Require Import List ZArith NArith Bool.\nFrom VF Require Impo
          'Import ListNotations.\nOpen Scope Z_scope.\n')
 SPECIALS = [1.0, 0.5, -0.5, 0.25, -0.25]
 ATOL = 1e-8
+
+
+def _disagree(ctx, name, detail, signature, what, replay):
+    """ctx.disagree, but a correspondence stream is entered into the broken list once, not once per failing case."""
+    if ctx.violation(signature, what, replay) != 'known' and not any(b[0] == name for b in ctx.broken):
+        ctx.mark_broken(name, detail)
 
 
 class Unrecognised(Exception):
@@ -450,15 +456,17 @@ def ionq_payload_stream(ctx, cirq, mods, checks, dchecks, n, native=False, long=
         try:
             prog = serialize_case(cirq, mods, case)
         except Exception as e:
-            ctx.disagree(f'correspondence:{stream}', f'{type(e).__name__}: {e}', f'{stream}:raises:{type(e).__name__}',
+            _disagree(ctx, f'correspondence:{stream}', f'{type(e).__name__}: {e}', f'{stream}:raises:{type(e).__name__}',
                          f'serializing a circuit over the accepted vocabulary raised {type(e).__name__}: {e}',
                          dict(kind='ionq_payload', case=case))
             continue
         inp = prog.input
         ctx.count(stream, case, nontrivial(case),
                   sample=dict(ops=case['ops'][:4], meas=case['meas'], payload=dict(inp, circuit=inp['circuit'][:4]), metadata=prog.metadata))
-        head_ok = set(inp) == {'gateset', 'qubits', 'circuit'} and inp['gateset'] == case['gateset'] and inp['qubits'] == num_qubits(case)
-        add_prog_checks(ctx, mods, checks, dchecks, stream, case, inp.get('circuit'), num_qubits(case), head_ok, prog.metadata,
+        # the register may be larger than the circuit needs (idle wires), never smaller
+        head_ok = (set(inp) == {'gateset', 'qubits', 'circuit'} and inp['gateset'] == case['gateset'] and isinstance(inp['qubits'], int)
+                   and num_qubits(case) <= inp['qubits'] <= 8)
+        add_prog_checks(ctx, mods, checks, dchecks, stream, case, inp.get('circuit'), inp['qubits'] if head_ok else num_qubits(case), head_ok, prog.metadata,
                         dict(kind='ionq_payload', case=case), circuit_recs(cirq, mods, case))
 
 
@@ -488,15 +496,15 @@ def ionq_many_stream(ctx, cirq, mods, checks, dchecks, n):
         try:
             prog = ser.serialize_many_circuits([build_circuit(cirq, mods, c) for c in cases])
         except Exception as e:
-            ctx.disagree('correspondence:ionq_many', f'{type(e).__name__}: {e}', f'ionq_many:raises:{type(e).__name__}',
+            _disagree(ctx, 'correspondence:ionq_many', f'{type(e).__name__}: {e}', f'ionq_many:raises:{type(e).__name__}',
                          f'serialize_many_circuits over the accepted vocabulary raised {type(e).__name__}: {e}', rep)
             continue
         inp, md = prog.input, prog.metadata
         ctx.count('ionq_many', cases, len(cases) >= 2 and any(nontrivial(c) for c in cases),
                   sample=dict(circuits=len(cases), qubits=inp.get('qubits'), metadata=md))
         ok = (set(inp) == {'gateset', 'qubits', 'circuits'} and inp['gateset'] == cases[0]['gateset'] and len(inp['circuits']) == len(cases)
-              and inp['qubits'] == max(num_qubits(c) for c in cases) and all(set(c) == {'circuit'} for c in inp['circuits'])
-              and set(md) == {'measurements', 'qubit_numbers'})
+              and isinstance(inp['qubits'], int) and max(num_qubits(c) for c in cases) <= inp['qubits'] <= 8
+              and all(set(c) == {'circuit'} for c in inp['circuits']) and {'measurements', 'qubit_numbers'} <= set(md))
         if not ok:
             checks.append(('ionq_many', 'false', rep))
             continue
@@ -504,7 +512,8 @@ def ionq_many_stream(ctx, cirq, mods, checks, dchecks, n):
         for i, c in enumerate(cases):
             sub = dict(rep, index=i)
             job = fake_job(mods, md, nq=inp['qubits'])
-            good = len(ms) == len(cases) and qn == [num_qubits(x) for x in cases] and job.num_qubits(i) == num_qubits(c) \
+            # per circuit: the qubit number used for the endianness conversion must cover the circuit; its keys/targets must come back
+            good = len(ms) == len(cases) and len(qn) == len(cases) and job.num_qubits(i) >= num_qubits(c) \
                 and job.measurement_dict(circuit_index=i) == {m['key']: m['w'] for m in c['meas']}
             add_prog_checks(ctx, mods, checks, dchecks, 'ionq_many', c, inp['circuits'][i]['circuit'], inp['qubits'], good,
                             ms[i] if i < len(ms) else {}, sub, circuit_recs(cirq, mods, c))
@@ -532,7 +541,7 @@ def payload_oracle(cirq, mods, rep):
         for i in idx:
             c = cases[i]
             tolf = 1e-6 if c.get('window') else 2e-9
-            if prog.input['qubits'] != max(num_qubits(x) for x in cases) or prog.input['gateset'] != c['gateset']:
+            if prog.input['qubits'] < max(num_qubits(x) for x in cases) or prog.input['gateset'] != c['gateset']:
                 return False, c
             if np_ionq_disagrees(cirq, mods, dict(c, ops=c['ops'] + [dict(k='pad', w=[prog.input['qubits'] - 1])]),
                                  prog.input['circuits'][i]['circuit'], c['gateset'] == 'native', tolf):
@@ -542,7 +551,7 @@ def payload_oracle(cirq, mods, rep):
     native = case['gateset'] == 'native'
     tolf = 1e-6 if case.get('window') else 2e-9
     prog = serialize_case(cirq, mods, case)
-    if prog.input.get('qubits') != num_qubits(case) or prog.input.get('gateset') != case['gateset']:
+    if prog.input.get('qubits') < num_qubits(case) or prog.input.get('gateset') != case['gateset']:
         return False, case
     if np_ionq_disagrees(cirq, mods, case, prog.input['circuit'], native, tolf):
         return False, shrink_ionq(cirq, mods, case, native, tolf)
@@ -559,14 +568,15 @@ def report(ctx, cirq, mods, stream, rep):
         ctx.mark_broken(f'correspondence:{stream}', f'oracle failed: {type(e).__name__}: {e}')
         return
     if holds:
-        ctx.mark_broken(f'correspondence:{stream}', f'Coq model and numpy reading of the vendor semantics disagree on {json.dumps(rep)[:600]}')
+        ctx.mark_broken(f'correspondence:{stream}', 'the payload differs from the model (header fields, per-circuit metadata / qubit numbers, or the '
+                        f'Coq and numpy readings of the vendor semantics disagree) although its unitary is the circuit\'s: {json.dumps(rep)[:500]}')
         return
     sig = f'{stream}:' + '+'.join(op_signature(o) for o in small['ops'][:2])
     try:
         shown = json.dumps(serialize_case(cirq, mods, small).input)[:300]
     except Exception as e:
         shown = f'{type(e).__name__}'
-    ctx.disagree(f'correspondence:{stream}', f'payload means another unitary: {small["ops"]}', sig,
+    _disagree(ctx, f'correspondence:{stream}', f'payload means another unitary: {small["ops"]}', sig,
                  f'IonQ payload {shown} interpreted by the vendor gate definitions is not the unitary (up to global phase) '
                  f'of the circuit {small["ops"]}', dict(kind='ionq_payload', case=small))
 
@@ -590,7 +600,7 @@ def report_aqt(ctx, cirq, mods, rep):
                 break
         except Exception:
             pass
-    ctx.disagree('correspondence:aqt_payload', f'{small["ops"]}', 'aqt_payload:' + '+'.join(o['fam'] for o in small['ops'][:2]),
+    _disagree(ctx, 'correspondence:aqt_payload', f'{small["ops"]}', 'aqt_payload:' + '+'.join(o['fam'] for o in small['ops'][:2]),
                  f'AQT operation list {aqt_payload(cirq, mods, small)[0][:300]} read by AQT\'s gate definitions is not the unitary (up to '
                  f'global phase) of the circuit {small["ops"]}', dict(kind='aqt_payload', case=small))
 
@@ -706,7 +716,7 @@ def add_meta_checks(ctx, mods, dchecks, stream, recs, out, rep):
         dchecks.append((stream, e2, rep, 'parse'))
         # spec-level oracle on the real code: what comes back is what the circuit measures
         if parsed != [(k, list(ts)) for k, ts in recs] and len({k for k, _ in recs}) == len(recs):
-            ctx.disagree(f'correspondence:{stream}', f'{recs} -> {parsed}', f'{stream}:roundtrip',
+            _disagree(ctx, f'correspondence:{stream}', f'{recs} -> {parsed}', f'{stream}:roundtrip',
                          f'measurement keys/targets {recs} come back from the job metadata as {parsed}', rep)
 
 
@@ -734,7 +744,7 @@ def report_discrete(ctx, cirq, mods, stream, rep, what):
     if holds:
         ctx.mark_broken(f'correspondence:{stream}', f'{what}: model differs from the code on {json.dumps(rep)[:400]} although the property holds there')
     else:
-        ctx.disagree(f'correspondence:{stream}', f'{what}: {json.dumps(rep)[:400]}', f'{stream}:{what}',
+        _disagree(ctx, f'correspondence:{stream}', f'{what}: {json.dumps(rep)[:400]}', f'{stream}:{what}',
                      f'{stream}: {what} of {json.dumps(rep)[:300]} is not what the property requires', rep)
 
 
@@ -883,13 +893,13 @@ def results_stream(ctx, cirq, mods, dchecks, n):
         try:
             res, rows, picks = run_results_case(cirq, mods, rep)
         except Exception as e:
-            ctx.disagree('correspondence:ionq_results', f'{type(e).__name__}: {e}', f'ionq_results:raises:{type(e).__name__}',
+            _disagree(ctx, 'correspondence:ionq_results', f'{type(e).__name__}: {e}', f'ionq_results:raises:{type(e).__name__}',
                          f'converting the histogram {rep["hist"]} for {rep["meas"]} raised {type(e).__name__}: {e}', rep)
             continue
         ctx.count('ionq_results', rep, rep['n'] >= 2 and len(rep['hist']) >= 2,
                   sample=dict(case=rep, rows={k: v[:3] for k, v in rows.items()}))
         if '<keys>' in rows:
-            ctx.disagree('correspondence:ionq_results', f'keys {rows["<keys>"]}', 'ionq_results:keys',
+            _disagree(ctx, 'correspondence:ionq_results', f'keys {rows["<keys>"]}', 'ionq_results:keys',
                          f'result keys {rows["<keys>"]} are not the measured keys {rep["meas"]}', rep)
             continue
         for k, ts in rep['meas']:
@@ -905,7 +915,7 @@ def results_stream(ctx, cirq, mods, dchecks, n):
             dchecks.append(('ionq_results', expr, rep, 'rows'))
         # the Python reading of the statement is checked on every case as well (counts / probabilities views are only compared here)
         if not results_oracle(cirq, mods, rep):
-            ctx.disagree('correspondence:ionq_results', json.dumps(rep)[:300], 'ionq_results:oracle',
+            _disagree(ctx, 'correspondence:ionq_results', json.dumps(rep)[:300], 'ionq_results:oracle',
                          f'histogram {rep["hist"]} (little-endian) for measurements {rep["meas"]} on target {rep["target"]} is not '
                          f'assigned to the right keys/qubits: {rows}', rep)
 
@@ -1030,11 +1040,11 @@ def e2e_stream(ctx, cirq, mods, n):
         try:
             ok = e2e_oracle(cirq, mods, rep)
         except Exception as e:
-            ctx.disagree('correspondence:ionq_e2e', f'{type(e).__name__}: {e}', f'ionq_e2e:raises:{type(e).__name__}',
+            _disagree(ctx, 'correspondence:ionq_e2e', f'{type(e).__name__}: {e}', f'ionq_e2e:raises:{type(e).__name__}',
                          f'running a classical circuit through cirq_ionq.Service raised {type(e).__name__}: {e}', rep)
             continue
         if not ok:
-            ctx.disagree('correspondence:ionq_e2e', json.dumps(rep)[:300], 'ionq_e2e:bits',
+            _disagree(ctx, 'correspondence:ionq_e2e', json.dumps(rep)[:300], 'ionq_e2e:bits',
                          f'classical circuit {cases} run through Service.{mode} on a vendor following the documented definitions '
                          f'returns bits that are not the circuit\'s', rep)
 
@@ -1157,7 +1167,7 @@ def reject_stream(ctx, cirq, mods, n_rounds):
         ctx.count('ionq_reject', [name, arg], True, sample=dict(name=name, arg=arg, outcome=outcome))
         ctx.cov.setdefault('ionq_reject_outcomes', {}).setdefault(name, outcome)
         if not ok:
-            ctx.disagree('correspondence:ionq_reject', f'{name} {arg}', f'ionq_reject:{name}',
+            _disagree(ctx, 'correspondence:ionq_reject', f'{name} {arg}', f'ionq_reject:{name}',
                          f'unsupported content `{name}` ({arg}) is neither rejected by cirq_ionq.Serializer nor kept: what is submitted / '
                          f'returned differs from the circuit', rep)
 
@@ -1316,7 +1326,7 @@ def aqt_payload_stream(ctx, cirq, mods, checks, n):
         try:
             js, v1 = aqt_payload(cirq, mods, case)
         except Exception as e:
-            ctx.disagree('correspondence:aqt_payload', f'{type(e).__name__}: {e}', f'aqt_payload:raises:{type(e).__name__}',
+            _disagree(ctx, 'correspondence:aqt_payload', f'{type(e).__name__}: {e}', f'aqt_payload:raises:{type(e).__name__}',
                          f'AQTSampler._generate_json / _parse_legacy_circuit_json raised {type(e).__name__}: {e} on a circuit over the accepted vocabulary', rep)
             continue
         nq = 1 + max(w for o in case['ops'] for w in o['w'])
@@ -1427,11 +1437,11 @@ def aqt_results_stream(ctx, cirq, mods, n):
         try:
             ok = aqt_results_oracle(cirq, mods, rep)
         except Exception as e:
-            ctx.disagree('correspondence:aqt_results', f'{type(e).__name__}: {e}', f'aqt_results:raises:{type(e).__name__}',
+            _disagree(ctx, 'correspondence:aqt_results', f'{type(e).__name__}: {e}', f'aqt_results:raises:{type(e).__name__}',
                          f'running a classical circuit through the AQT sampler ({mode}) raised {type(e).__name__}: {e}', rep)
             continue
         if not ok:
-            ctx.disagree('correspondence:aqt_results', json.dumps(rep)[:300], f'aqt_results:{mode}',
+            _disagree(ctx, 'correspondence:aqt_results', json.dumps(rep)[:300], f'aqt_results:{mode}',
                          f'AQT samples are not assigned to key m / the qubits in index order ({mode}): {json.dumps(rep)[:300]}', rep)
 
 
@@ -1512,7 +1522,7 @@ def aqt_reject_stream(ctx, cirq, mods, rounds):
         ctx.cov.setdefault('aqt_reject_outcomes', {}).setdefault(name, outcome)
         if not ok:
             sig = 'aqt_reject:qubit_validation' if name in ('qutrit_Z', 'negative_line_qubit') else f'aqt_reject:{name}'
-            ctx.disagree('correspondence:aqt_reject', f'{name}', sig,
+            _disagree(ctx, 'correspondence:aqt_reject', f'{name}', sig,
                          f'unsupported content `{name}` is neither rejected by AQTSampler._generate_json nor kept: the operation list '
                          f'names something else than the circuit', rep)
 
@@ -1583,11 +1593,11 @@ def pasqal_stream(ctx, cirq, mods, n):
         try:
             ok = pasqal_oracle(cirq, mods, rep)
         except Exception as e:
-            ctx.disagree('correspondence:pasqal', f'{type(e).__name__}: {e}', f'pasqal:raises:{type(e).__name__}',
+            _disagree(ctx, 'correspondence:pasqal', f'{type(e).__name__}: {e}', f'pasqal:raises:{type(e).__name__}',
                          f'PasqalSampler round trip raised {type(e).__name__}: {e} on {json.dumps(rep)[:200]}', rep)
             continue
         if not ok:
-            ctx.disagree('correspondence:pasqal', json.dumps(rep)[:300], 'pasqal:roundtrip',
+            _disagree(ctx, 'correspondence:pasqal', json.dumps(rep)[:300], 'pasqal:roundtrip',
                          f'the Pasqal request body does not read back as the resolved circuit / the result is not decoded as sent: {json.dumps(rep)[:300]}', rep)
 
 
@@ -1639,7 +1649,7 @@ def replay(ctx, data):
         holds, _ = payload_oracle(cirq, mods, data)
         checks, dchecks = [], []
         recs = circuit_recs(cirq, mods, case)
-        add_prog_checks(ctx, mods, checks, dchecks, 'replay', case, prog.input['circuit'], num_qubits(case), True, prog.metadata, data, recs)
+        add_prog_checks(ctx, mods, checks, dchecks, 'replay', case, prog.input['circuit'], prog.input['qubits'], True, prog.metadata, data, recs)
         out = coq.parse_evals(coq.coq_eval('c17_replay', PRE + f'Eval vm_compute in ({checks[0][1]}).\n'))
         print('vendor semantics evaluated in Coq agree with the reference unitary:', out[0].strip())
         dout = coq.parse_evals(coq.coq_eval('c17_replay_d', PRE_D + 'Eval vm_compute in [' + '; '.join(c[1] for c in dchecks) + '].\n')) if dchecks else ['[]']
